@@ -176,12 +176,17 @@ func (k *c15) one(ty oracle.Type, op string, a, b, c *big.Int, rule oracle.Round
 		}
 	}
 	msg := judge(ty, e, o)
-	if fn1Case(ty, op, a, b, c) {
-		// known finding FN1: counted, excluded from the verdict only while listed as known
+	if hit, how := fn1Lib(ty, op, a, b, c, rule); hit {
+		// known finding FN1: the dependency itself (called directly) is wrong for these magnitudes.
+		// Counted, and excluded from the verdict only while FN1 is listed as known.
+		sub := "/other-branch"
+		if fn1Case(ty, op, a, b, c) {
+			sub = "/edge-branch-mirror"
+		}
 		if msg == "" {
-			k.rec.Class("FN1/predicate-holds-but-result-correct")
+			k.rec.Class("FN1/" + how + sub + "/cadence-result-correct")
 		} else {
-			k.rec.Class("FN1/predicate-holds-result-wrong")
+			k.rec.Class("FN1/" + how + sub + "/cadence-result-wrong")
 		}
 		if k.useKnown && k.rec.Known("FN1") {
 			k.rec.Excluded("FN1")
@@ -338,7 +343,8 @@ func TestC15(t *testing.T) {
 		ty := oracle.ByName("Fix128")
 		a, b, c := bi("20282409603651670423947251286015"), bi("4247091015633700519367227700732191"), bi("4247091015633700519367227700732192")
 		e, _, _ := c15Expect(ty, "muldiv", a, b, c, oracle.TowardZero)
-		rec.ReportKnown("FN1", fn1Case(ty, "muldiv", a, b, c) && judge(ty, e, c15Run(k.ctx, ty, "muldiv", a, b, c, oracle.TowardZero)) != "")
+		hit, _ := fn1Lib(ty, "muldiv", a, b, c, oracle.TowardZero)
+		rec.ReportKnown("FN1", hit && judge(ty, e, c15Run(k.ctx, ty, "muldiv", a, b, c, oracle.TowardZero)) != "")
 	}
 
 	n := evid.N(30_000, 1_200_000)
@@ -435,6 +441,10 @@ func (k *c15) scriptCase(ty oracle.Type, _ string, a, b, c *big.Int) {
 			k.rec.Case(true, "script", ty.Name, i, a.String(), b.String(), c.String(), eng.String())
 			k.rec.Class("script/" + eng.String())
 			msg := judgeScript(ty, e, res)
+			if hit, _ := fn1Lib(ty, s.op, a, b, c, s.rule); hit && k.useKnown && k.rec.Known("FN1") {
+				k.rec.Excluded("FN1")
+				continue
+			}
 			if msg != "" && modMayFail && scriptRangeFail(res) {
 				msg = ""
 			}
